@@ -160,23 +160,24 @@ Theorem C05_sast_selection : forall defs regdef exts has_result t exc inc f,
 Proof. intros. rewrite In_sast_files_to_analyze, In_files_for_directory. reflexivity. Qed.
 Print Assumptions C05_sast_selection.
 
-(** ** Non-vacuity: concrete trees and pattern lists on which the statements compute *)
+(** ** Non-vacuity: concrete trees and pattern lists on which the statements compute (with the pinned default lists, so
+    that this file builds whatever the current lists are) *)
 Definition ex_tree : tree :=
   [(lit "a.py", NFile); (lit "sub", NDir); (lit "sub/b.py", NFile); (lit "tests", NDir); (lit "tests/c.py", NFile);
    (lit "notes.txt", NFile); (lit "lnk.py", NLinkFile); (lit "lnkdir", NLinkDir); (lit "sub/x[1].py", NFile)].
 
 Example C05_example_defaults :
-  ff_files_to_analyze defaults [lit ".py"] (files_for_directory ex_tree) [] []
+  ff_files_to_analyze pinned_defaults [lit ".py"] (files_for_directory ex_tree) [] []
   = [lit "a.py"; lit "sub/b.py"; lit "sub/x[1].py"].
 Proof. vm_compute. reflexivity. Qed.
 
 Example C05_example_line_exclude_drops_default_excludes :
-  ff_files_to_analyze defaults [lit ".py"] (files_for_directory ex_tree) [lit "a.py:2"] []
+  ff_files_to_analyze pinned_defaults [lit ".py"] (files_for_directory ex_tree) [lit "a.py:2"] []
   = [lit "a.py"; lit "sub/b.py"; lit "sub/x[1].py"; lit "tests/c.py"].
 Proof. vm_compute. reflexivity. Qed.
 
 Example C05_example_bracket_patterns :
-  ff_files_to_analyze defaults [lit ".py"] (files_for_directory ex_tree) [lit "sub/[!b]*"] [lit "sub/*"; lit "*.txt"]
+  ff_files_to_analyze pinned_defaults [lit ".py"] (files_for_directory ex_tree) [lit "sub/[!b]*"] [lit "sub/*"; lit "*.txt"]
   = [lit "sub/b.py"]
   /\ fnmatch (lit "sub/x[1].py") (lit "sub/x[1].py") = false
   /\ fnmatch (lit "sub/x[1].py") (lit "sub/x[[]1].py") = true
